@@ -7,8 +7,8 @@ EXTENDS LayerEnv, IOUtils
 CONSTANT Mode     \* which enumeration this run evaluates: "c04q" "c04t" "c10" "c03"
 
 MCNames == <<"N1", "N2">>
-MCProcs == {"web"}
-MCProcs3 == {"web", "worker", "a b"}
+MCProcs == {"web.x"}   \* (a dot is a legal character of a process type)
+MCProcs3 == {"web.x", "web", "worker", "a b"}
 
 -----------------------------------------------------------------------------
 (* C04 *)
@@ -74,7 +74,7 @@ SingleLaws ==
         /\ R("a", {Entry("build", "append", "N1", <<"x">>), Entry("all", "delim", "N1", <<":">>)}) =
              (IF pv.set /\ pv.v # <<>> THEN Val(pv.v \o <<"x">>) ELSE Val(<<"x">>))
         \* entries of other scopes have no effect
-        /\ R("x", {Entry("launch", "override", "N1", <<"x">>), Entry("process:web", "override", "N1", <<"y">>)}) = pv
+        /\ R("x", {Entry("launch", "override", "N1", <<"x">>), Entry("process:web.x", "override", "N1", <<"y">>)}) = pv
 
 AllBehSubsets == SUBSET BehSet
 \* quick: every subset for the scope delta, the all-delta restricted to <= 2 behaviours
@@ -135,23 +135,23 @@ Singles(scopes, behs, names) == { {Entry(s, b, n, <<"v1">>)} : s \in scopes, b \
 MCEnvSetQuick ==
   {{}} \cup Singles(Scopes, BehSet, {"N1"})
   \cup { {Entry("all", "append", "N1", <<"v1">>), Entry("all", "delim", "N1", <<"v2">>)},
-         {Entry("launch", "override", "N1", <<"v1">>), Entry("process:web", "override", "N1", <<"v2">>)},
-         {Entry("process:web", "prepend", "N2", <<>>)},
+         {Entry("launch", "override", "N1", <<"v1">>), Entry("process:web.x", "override", "N1", <<"v2">>)},
+         {Entry("process:web.x", "prepend", "N2", <<>>)},
          {Entry("build", "default", "N2", <<"v2">>), Entry("build", "default", "N1", <<"v1">>),
           Entry("all", "override", "N2", <<>>)} }
 
 MCEnvSetThorough ==
   MCEnvSetQuick \cup Singles(Scopes, BehSet, {"N2"})
-  \cup { a \cup b : a \in Singles({"all", "process:web"}, BehSet, {"N1"}),
-                    b \in Singles({"launch", "process:web"}, {"append", "override"}, {"N2"}) }
+  \cup { a \cup b : a \in Singles({"all", "process:web.x"}, BehSet, {"N1"}),
+                    b \in Singles({"launch", "process:web.x"}, {"append", "override"}, {"N2"}) }
 
 MCForeign ==
   { File("env", "N1", "", <<"v2">>, FALSE),            \* suffix-less = override
     File("env.build", "N2", "bogus", <<"v2">>, FALSE),  \* unknown suffix: ignored
-    File("env.launch/web", "N2", "", <<"v1">>, FALSE),
+    File("env.launch/web.x", "N2", "", <<"v1">>, FALSE),
     File("env.launch/other", "N1", "append", <<"v1">>, FALSE),  \* a process libcnb did not write
     File("env", "N2", "override", <<"v1">>, TRUE),     \* inside env/sub/: ignored
-    File("env.launch/web", "N1", "default", <<"v2">>, TRUE) }
+    File("env.launch/web.x", "N1", "default", <<"v2">>, TRUE) }
 
 MCEmptySet == {}
 \* bound on foreign clutter explored by the disk model
@@ -172,8 +172,8 @@ TraceCheck ==
         \/ (PrintT(<<"TRACE_MISMATCH", i>>) /\ FALSE)
 
 ASSUME
-  CASE Mode = "c04q" -> SingleLaws /\ C04Run(SmallBehSubsets, AllBehSubsets, {"build", "launch", "process:web"})
-    [] Mode = "c04t" -> SingleLaws /\ C04Run(AllBehSubsets, AllBehSubsets, {"build", "launch", "process:web"})
+  CASE Mode = "c04q" -> SingleLaws /\ C04Run(SmallBehSubsets, AllBehSubsets, {"build", "launch", "process:web.x"})
+    [] Mode = "c04t" -> SingleLaws /\ C04Run(AllBehSubsets, AllBehSubsets, {"build", "launch", "process:web.x"})
     [] Mode = "c10"  -> C10Run(PathKinds)
     [] Mode = "trace" -> TraceCheck
     [] OTHER -> TRUE
